@@ -1,8 +1,10 @@
 """C06 — deserialization accepts exactly the JSON images of constructor-valid data."""
 import json
+import random
 import re
 from ..suites import serde as S
 from ..suites import extras as X
+from ..suites import inheritdeser as IH
 from .. import dump
 
 ID = "C06"
@@ -18,7 +20,10 @@ RULE = ("classes over the serializable fragment (20% with lossy kinds); document
         "constraint or nesting; distinct by case hash; plus an oracle-only stream (suites/extras.py, no model counterpart): "
         "documents of classes over DecimalNumber / Enum by value and by name (plain, IntEnum, Flag, str enums) / date, time "
         "and formatted-string fields, bare and inside Optional/Array/Deque/Set/Map/Tuple, with one leaf replaced by each of "
-        "12 wrong-type / ill-formatted values: a rejection must be a TypeError or ValueError")
+        "12 wrong-type / ill-formatted values: a rejection must be a TypeError or ValueError; plus an oracle-only INHERITANCE stream "
+        "(suites/inheritdeser.py): chains, several bases and diamonds with a field re-declared at any class of the hierarchy; for "
+        "JSON-native documents the Deserializer of the most derived class must accept exactly when its constructor does, with an "
+        "equal instance")
 ASSUMPTIONS = [
     "mapper-free; fail-fast mode (the default); AnyOf/OneOf/AllOf/NotField fields are corresponded but have no lifting spec (they need the validation result to choose an option)",
     "Enum serialization_by_value, DecimalNumber, date/time fields, compact deserialization are not in the model",
@@ -27,7 +32,8 @@ ASSUMPTIONS = [
 
 def cases(rng, tier):
     return [c for c in S.gen_cases(rng, tier, 200 if tier == "quick" else 3000) if c["mode"] == "deser"] \
-        + X.directed_corrupt_cases() + X.gen_corrupt_cases(rng, 300 if tier == "quick" else 6000)
+        + X.directed_corrupt_cases() + X.gen_corrupt_cases(rng, 300 if tier == "quick" else 6000) \
+        + IH.directed_cases() + IH.gen_cases(random.Random(str(rng.getstate()[1][0])), 300 if tier == "quick" else 6000)
 
 
 def search_cases(rng, tier):
@@ -38,29 +44,41 @@ def _x(case):
     return case.get("suite") == "extras-corrupt"
 
 
+def _ih(case):
+    return case.get("suite") == "inheritdeser"
+
+
 def run_impl(case):
+    if _ih(case):
+        return IH.run_impl(case)
     return X.run_corrupt(case) if _x(case) else S.run_impl(case)
 
 
 def line(case, impl):
-    return None if _x(case) else S.line(case, impl)
+    return None if _x(case) or _ih(case) else S.line(case, impl)
 
 
 def tags(case, impl, model):
+    if _ih(case):
+        return ["stream:inheritdeser", "inherit:" + case["shape"]] + sorted({f"inherit-ctor:{'ok' if s['ctor'] == 'ok' else 'rejects'}" for s in impl.get("steps", [])})
     if _x(case):
         return ["stream:extras-corrupt", "extras:" + impl.get("out", "skipped")] + (["extras-exc:" + impl["exc"]] if "exc" in impl else [])
     return S.tags(case, impl, model)
 
 
 def nontrivial(case):
-    return True if _x(case) else S.nontrivial(case)
+    return True if _x(case) or _ih(case) else S.nontrivial(case)
 
 
 def describe(case, impl, model):
+    if _ih(case):
+        return {"inheritdeser": case, "mro": impl.get("mro"), "steps": impl.get("steps")}
     return {"extras": case["fields"], "doc": impl.get("doc"), "out": impl.get("out"), "exc": impl.get("exc")} if _x(case) else S.describe(case, impl, model)
 
 
 def judge(case, impl, model):
+    if _ih(case):
+        return None, IH.judge(case, impl)
     if _x(case):
         return None, X.judge_corrupt(case, impl)
     msg = S.correspondence(case, impl, model)
